@@ -35,7 +35,7 @@ def reader_ctor(rng, fmt):
 def reader_call(rng, fmt):
     kw = {}
     if fmt in ("srt", "webvtt", "microdvd", "scc") and rng.random() < 0.3:
-        kw["lang"] = rng.choice(docs.LANGS)
+        kw["lang"] = rng.choice(docs.LANGS if rng.random() < 0.8 else docs.ODD_LANGS)
     if fmt == "scc":
         if rng.random() < 0.35:
             kw["simulate_roll_up"] = True
